@@ -1113,3 +1113,7 @@ func casesRec(t *Term, max int) []TermCase {
 	}
 	return out
 }
+
+// WithKey returns a placeholder term whose key is exactly key; it is only
+// meaningful as the "from" argument of Subst.
+func WithKey(key string) *Term { return &Term{Op: "key", key: key} }
